@@ -27,7 +27,7 @@ def cases(tier, seed):
     rng = random.Random('C13|%d' % seed)
     T = tier == 'thorough'
     cs = []
-    nstruct = 130 if not T else 600
+    nstruct = 300 if not T else 2500
     k = 2 if not T else 5
     for i in range(nstruct):
         d = rng.choice([2, 2, 3, 3, 4, 5])
